@@ -2449,6 +2449,18 @@ class KmipEngine(object):
                                 )
                                 add_object = False
                                 break
+                        named_bits = 0
+                        for mask_value in mask_values:
+                            named_bits |= mask_value.value
+                        if value & ~named_bits:
+                            # Bits outside the enumeration (extensions) are
+                            # never set on a stored object.
+                            self._logger.debug(
+                                "Failed match: the specified cryptographic "
+                                "usage mask has bits that are not set on the "
+                                "object."
+                            )
+                            add_object = False
                         if not add_object:
                             break
                     elif name == "Certificate Type":
